@@ -22,7 +22,7 @@ package weighted_sum
 //@   loop 1 invariant [none_before] forall j int :: 0 <= j && j < iter ==> (*p.weightedCriteria)[j].Id != criterion
 
 //@ func (*WeightedSumBiasListener).OnCriteriaRemoved
-//@   property C07 C15
+//@   property C07 C15 C03
 //@   nopanic
 //@   refines model.BiasListener.OnCriteriaRemoved with validParams=wsValid, coversId=wsCovers
 //@   ensures [weights_kept] typeis(result, weightedSumParams) && len(*result.(weightedSumParams).weightedCriteria) == len(*leftCriteria)
@@ -34,7 +34,7 @@ package weighted_sum
 //@   loop 1 invariant [own_entries] forall k int :: 0 <= k && k < iter ==> exists j int :: 0 <= j && j < len(*wParams.weightedCriteria) && result[k] == (*wParams.weightedCriteria)[j]
 
 //@ func (*WeightedSumBiasListener).OnCriterionAdded
-//@   property C07 C18
+//@   property C07 C18 C03
 //@   nopanic
 //@   fnparam generator ensures 0.0 <= result && result < 1.0
 //@   refines model.BiasListener.OnCriterionAdded with validParams=wsValid, coversId=wsCovers, accepts=wsAccepts, acceptsAny=wsAcceptsAny
@@ -45,7 +45,7 @@ package weighted_sum
 //@             && len(result.(WeightedSumAddedCriterion).weights) == 1 && result.(WeightedSumAddedCriterion).weights[0].Criterion == *criterion
 
 //@ func (*WeightedSumBiasListener).Merge
-//@   property C07 C18
+//@   property C07 C18 C03
 //@   nopanic
 //@   refines model.BiasListener.Merge with validParams=wsValid, coversId=wsCovers, accepts=wsAccepts, acceptsAny=wsAcceptsAny
 
